@@ -605,6 +605,13 @@ def small_scope_count():
     return len(l1), len(l1) + len(SMALL_LEAVES)
 
 
+def small_scope_total():
+    """Number of trees small_scope_iter enumerates over all shards."""
+    pool = len(SMALL_LEAVES) + len(small_level(SMALL_LEAVES))
+    per_child = len(S.UNARY) + len(S.POWN) * len(SMALL_NS) + len(S.BASED) * len(SMALL_BASES)
+    return pool * per_child + len(S.NARY) * (1 + pool) + pool * pool * (len(S.BINARY) + len(S.NARY))
+
+
 def small_scope_iter(shard, nshards, rng=None, limit=None):
     """node o children o leaf-grandchildren.  Level-1 nodes (children are leaves) form the pool
     for level 2; the full level-2 space is partitioned over shards by index."""
